@@ -46,6 +46,7 @@ ASSUMPTIONS = ["comparison tolerance 1e-9 * (1 + product of the infinity-norms o
 
 SIMPLE = ["a", "b", "c", "d"]
 MULTI = ["x1", "gen", "s0", "tt"]
+MULTI_ODD = ["2y", "_z", "s0", "tt"]     # legal names whose first character is not a letter (round h)
 EXTRA = ["ab", "ba", "cc"]        # multi-character names living next to single-character ones
 FAMILIES = ["unimodular", "unimodular", "unimodular_int", "gaussian", "float", "sl2z"]
 
@@ -252,6 +253,9 @@ class Engine:
             "invmode": "default",
             "scribble": rng.random() < 0.3,
         }
+        # no extra draw (the streams of all existing seeds stay as they were): half of the multi-character runs
+        # use names that start with a digit or an underscore
+        cfg["oddnames"] = bool(cfg["multi"] and cfg["max_handles"] % 2 == 0)
         if cfg["multi"] and rng.random() < 0.4:
             # a custom inverse-naming map: Representation(invert_gen=utils.words.formal_inverse)
             cfg["invmode"] = "formal"
@@ -286,7 +290,8 @@ class Engine:
         return "r%d" % world.next_id
 
     def _names(self, cfg):
-        return (MULTI if cfg["multi"] else SIMPLE)[:cfg["ngens"]]
+        multi = MULTI_ODD if cfg.get("oddnames") else MULTI
+        return (multi if cfg["multi"] else SIMPLE)[:cfg["ngens"]]
 
     def _pick(self, rng, world, pred=None):
         live = [h for h in world.live() if pred is None or pred(h)]
